@@ -1,5 +1,6 @@
 import DmrVerif.Lemmas.P2p
 import DmrVerif.Lemmas.Rdac
+import DmrVerif.Gen.Storage
 
 /-!
 # C18 — the repeater handshake handlers serve only registered peers and keep peers separate
@@ -871,6 +872,70 @@ example :
 example :
     (Rdac.run [⟨Q1, [0x55, 0x55], false⟩, ⟨Q2, [0x7E, 4, 0, 0xFD], false⟩, ⟨Q0, [0x7E, 4, 0, 0x10], false⟩]).1.steps = [([102], 3)] ∧
     (Rdac.run [⟨Q1, [0x55, 0x55], false⟩, ⟨Q2, [0x7E, 4, 0, 0xFD], false⟩, ⟨Q0, [0x7E, 4, 0, 0x10], false⟩]).1.store.len = 3 := by
+  decide
+
+/-! ### library sentinels and default member values as source addresses (round 4)
+
+A record nobody configured holds the unset sentinel `ADDRESS_EMPTY = ("", 0)` in `address_out` and `address_nat`
+(`Gen.Storage.createdMembers`, read from `/repo` every run).  Whether a request is served depends on the record whose
+`address_in` IS the source address and on nothing else: a source address that merely equals what some record holds in
+another member (the sentinel, or an address the application stored there) is a stranger. -/
+
+/-- **p2p_only_own_record.** The answer to a start-up request or ping from `a` (outputs, destinations, outcome) depends on
+the storage only through the registered record with `address_in = a`: two storages that agree on it answer alike, whatever
+their other records - and the other members of any record - hold. -/
+theorem p2p_only_own_record (cfg : Cfg) (s s' : Store) (a : Addr) (data : Bytes) (f : Bool)
+    (hd : dispatch data ≠ .registration) (h : registeredRec s a = registeredRec s' a) :
+    (P2p.step cfg s (.datagram a data f)).2 = (P2p.step cfg s' (.datagram a data f)).2 := by
+  simp only [P2p.step]
+  cases hdd : dispatch data with
+  | registration => exact absurd hdd hd
+  | nothing => rfl
+  | rdacRequest =>
+    simp only [handleRdacRequest, h]
+    repeat' split
+    all_goals rfl
+  | dmrRequest =>
+    simp only [handleDmrRequest, h]
+    repeat' split
+    all_goals rfl
+  | ping =>
+    simp only [handlePing, h]
+    repeat' split
+    all_goals rfl
+
+/-- the sentinel as a peer address -/
+private def E0 : Addr := { ip := [], port := 0 }
+
+/-- **p2p_sentinel_source.** Along every history in which no registration from the sentinel address itself completed,
+every start-up request and ping whose source address is `ADDRESS_EMPTY` gets the single-octet reject - however many
+registered records hold that value in `address_out` / `address_nat`. -/
+theorem p2p_sentinel_source (cfg : Cfg) (h : List Input) (henv : h.all envOk = true) (data : Bytes) (f : Bool)
+    (hreq : dispatch data = .rdacRequest ∨ dispatch data = .dmrRequest ∨ dispatch data = .ping)
+    (hun : registeredIn h E0 = false) :
+    E0.val = Gen.Storage.addressEmpty ∧
+    P2p.step cfg (P2p.run cfg h).1 (.datagram E0 data f) =
+      ((P2p.run cfg h).1, [{ kind := .reject, data := [0x00], dest := Gen.Storage.addressEmpty }], .ok) :=
+  ⟨by decide, p2p_reject_unregistered cfg h henv E0 data f hreq hun⟩
+
+/-- kernel-checked: the members of a created record that hold the sentinel; `P1` (the FIRST record of the storage)
+registers, the ping / DMR / RDAC start-up of the source `("", 0)` are rejected; the application stores `P3`'s address as
+`address_nat` and `P2`'s as `address_out` of the registered record: `P3` and `P2` stay strangers, `P1` is still served;
+the sentinel address can register like anybody else and is served from then on -/
+example :
+    (Gen.Storage.createdMembers.filter (fun m => m.2 == Gen.Storage.addressEmpty)).map (·.1) = ["address_out", "address_nat"] ∧
+    (P2p.run Cfg.default [.datagram P1 (cmd 0x10) false, .datagram E0 ping false, .datagram E0 (cmd 0x11) false,
+      .datagram E0 (cmd 0x12) false, .envPatch P1 (.field .addressNat) P3.val, .setOut P1 P2.val, .datagram P3 ping false,
+      .datagram P2 (cmd 0x12) false, .datagram P1 ping false, .datagram E0 (cmd 0x10) false, .datagram E0 ping false]).2.map
+        (fun r => (r.1.map (fun o => (o.kind, o.dest)), r.2)) =
+      [([(.registrationAnswer, .addr [] 0)], .ok),
+       ([(.reject, .addr [] 0)], .ok), ([(.reject, .addr [] 0)], .ok), ([(.reject, .addr [] 0)], .ok),
+       ([], .ok), ([], .ok),
+       ([(.reject, P3.val)], .ok), ([(.reject, P2.val)], .ok),
+       ([(.pingAnswer, P1.val)], .ok),
+       ([(.registrationAnswer, .addr [] 0)], .ok),
+       ([(.pingAnswer, .addr [] 0)], .ok)] ∧
+    [Input.envPatch P1 (.field .addressNat) P3.val, .setOut P1 P2.val].all envOk = true := by
   decide
 
 end Dmr.C18
